@@ -4,7 +4,7 @@
 cd /verif
 for d in seeded/*/; do
   n=$(basename "$d")
-  p=$(python3 -c "import json; print(json.load(open('$d/meta.json'))['property'])" 2>/dev/null) || continue
+  p=$(python3 -c "import json; m=json.load(open('$d/meta.json')); print(m.get('check', m['property']))" 2>/dev/null) || continue
   out=$(bin/try_seeded.sh "/verif/$d" "$p" "${1:-20}" 2>&1)
   if echo "$out" | grep -q "patch does not apply"; then echo "$n ($p): PATCH-FAILED";
   elif echo "$out" | grep -q "^VIOLATION"; then echo "$n ($p): CAUGHT $(echo "$out" | grep -c '^VIOLATION') $(echo "$out" | grep '^VIOLATION' | sed 's/.*class=\([^ ]*\).*/\1/' | sort -u | tr '\n' ' ')";
